@@ -64,8 +64,10 @@ impl C13 {
             str_cells = str_cells.min(700);
         }
         Families::new(vec![
-            ("array-index-sweep", arr_cells),
-            ("string-index-sweep", str_cells),
+            // every cell three times: read + write + re-read in one program (an out-of-range read ends that program
+            // before the write), the write alone, the read through the variable alone
+            ("array-index-sweep", arr_cells * 3),
+            ("string-index-sweep", str_cells * 3),
             ("index-and-value-types", 7 * 3),
             ("directed", directed().len() as u64),
             ("random-op-sequences", rnd),
@@ -77,6 +79,8 @@ impl C13 {
         let mut r = Rng::for_case(ctx.seed, 1300 + f as u64, i);
         let prog = match name {
             "array-index-sweep" => {
+                let form = i % 3;
+                i /= 3;
                 let mut len = 0i64;
                 loop {
                     let cells = (2 * (len + 2) + 1) as u64;
@@ -88,20 +92,26 @@ impl C13 {
                 }
                 let index_v = i as i64 - (len + 2);
                 if let Some(st) = st {
-                    st.set_insert("array-grid", &format!("{}:{}", len, index_v));
+                    st.set_insert("array-grid", &format!("{}:{}:{}", len, index_v, form));
                 }
                 let items: Vec<Expr> = (0..len).map(|k| Expr::Int(10 + k)).collect();
                 // read, write, re-read everything, length; through a variable and through a literal
-                vec![
-                    Stmt::Let("a".into(), Expr::Array(items.clone())),
-                    Stmt::Let("alias".into(), ident("a")),
-                    Stmt::Expr(calln("print", vec![str_e("r={}"), index(Expr::Array(items.clone()), int(index_v))])),
-                    Stmt::Expr(calln("print", vec![str_e("v={}"), index(ident("a"), int(index_v))])),
-                    Stmt::Expr(calln("print", vec![str_e("w={}"), assign(index(ident("a"), int(index_v)), Expr::Int(99))])),
-                    Stmt::Expr(Expr::Array(vec![ident("a"), ident("alias"), calln("lengte", vec![ident("a")])])),
-                ]
+                let mut p = vec![Stmt::Let("a".into(), Expr::Array(items.clone())), Stmt::Let("alias".into(), ident("a"))];
+                if form == 0 {
+                    p.push(Stmt::Expr(calln("print", vec![str_e("r={}"), index(Expr::Array(items.clone()), int(index_v))])));
+                }
+                if form == 0 || form == 2 {
+                    p.push(Stmt::Expr(calln("print", vec![str_e("v={}"), index(ident("a"), int(index_v))])));
+                }
+                if form == 0 || form == 1 {
+                    p.push(Stmt::Expr(calln("print", vec![str_e("w={}"), assign(index(ident("a"), int(index_v)), Expr::Int(99))])));
+                }
+                p.push(Stmt::Expr(Expr::Array(vec![ident("a"), ident("alias"), calln("lengte", vec![ident("a")])])));
+                p
             }
             "string-index-sweep" => {
+                let form = i % 3;
+                i /= 3;
                 let mut si = 0usize;
                 loop {
                     let cells = 2 * (self.strings[si].chars().count() as u64 + 2) + 1;
@@ -119,14 +129,18 @@ impl C13 {
                     st.count("string-grid-cells");
                 }
                 let newc = CHARS[((index_v + 8) % 4) as usize];
-                vec![
-                    Stmt::Let("s".into(), str_e(s)),
-                    Stmt::Expr(calln("print", vec![str_e("n={}"), calln("lengte", vec![ident("s")])])),
-                    Stmt::Expr(calln("print", vec![str_e("r={}"), index(str_e(s), int(index_v))])),
-                    Stmt::Expr(calln("print", vec![str_e("v={}"), index(ident("s"), int(index_v))])),
-                    Stmt::Expr(calln("print", vec![str_e("w={}"), assign(index(ident("s"), int(index_v)), str_e(newc))])),
-                    Stmt::Expr(Expr::Array(vec![ident("s"), calln("lengte", vec![ident("s")])])),
-                ]
+                let mut p = vec![Stmt::Let("s".into(), str_e(s)), Stmt::Expr(calln("print", vec![str_e("n={}"), calln("lengte", vec![ident("s")])]))];
+                if form == 0 {
+                    p.push(Stmt::Expr(calln("print", vec![str_e("r={}"), index(str_e(s), int(index_v))])));
+                }
+                if form == 0 || form == 2 {
+                    p.push(Stmt::Expr(calln("print", vec![str_e("v={}"), index(ident("s"), int(index_v))])));
+                }
+                if form == 0 || form == 1 {
+                    p.push(Stmt::Expr(calln("print", vec![str_e("w={}"), assign(index(ident("s"), int(index_v)), str_e(newc))])));
+                }
+                p.push(Stmt::Expr(Expr::Array(vec![ident("s"), calln("lengte", vec![ident("s")])])));
+                p
             }
             "index-and-value-types" => {
                 // every value type as index (-> type error) and as stored value
@@ -343,7 +357,7 @@ impl Check for C13 {
             inconclusive.push("string (text, index) grid incomplete".to_string());
         }
         Summary {
-            rule: "complete sweep: for every array length 0-6 and for strings of 0-6 characters over 1-/2-/3-/4-byte code points, every index from -(len+2) to len+2 is read (through a literal and a variable), written, and the whole sequence and its lengte re-read, also through an alias; every value type as index and as stored value; directed aliasing cases; random operation sequences (alias, pass, return, nest, write through parameter, self-nest) observed through every alias. Oracle: reference model with object identity. distinct = distinct program texts that agreed".to_string(),
+            rule: "complete sweep: for every array length 0-6 and for strings of 0-6 characters over 1-/2-/3-/4-byte code points, every index from -(len+2) to len+2 is read (through a literal and a variable), written (after the reads, and in a program of its own so that an out-of-range read cannot hide the write), and the whole sequence and its lengte re-read, also through an alias; every value type as index and as stored value; directed aliasing cases; random operation sequences (alias, pass, return, nest, write through parameter, self-nest) observed through every alias. Oracle: reference model with object identity. distinct = distinct program texts that agreed".to_string(),
             exhaustive: Some(true),
             extra: json!({
                 "exhaustive_parts": ["array (length 0-6) x index (-(len+2)..len+2) grid", "string (0-6 chars, all width classes up to length 3, rotating selection above) x index grid", "7 value types as index and as stored value"],
